@@ -76,6 +76,12 @@ Upwind == Has =>
          /\ ConvFlux(L.u, L.c, Rr.c) = ConvPhys(L.u, IF RSign(L.u) >= 0 THEN L.c ELSE Rr.c)
          /\ (RSign(L.u) > 0 /\ RSign(Rr.u) > 0) => BurgersFlux(L.u, Rr.u, FluxDeviations) = BurgersPhys(L.u)
          /\ (RSign(L.u) < 0 /\ RSign(Rr.u) < 0) => BurgersFlux(L.u, Rr.u, FluxDeviations) = BurgersPhys(Rr.u)
+(* C18: eigen-relations of the physical flux Jacobian at every grid state *)
+Eigen == (~Has) =>
+  CASE model = "euler" -> EuEigen(gam, L, 1) /\ EuEigen(gam, L, -1) /\ EuEigen0(gam, L)
+                          /\ SpectralRadius(L) = RMax(RAbs(L.u), RMax(RAbs(RAdd(L.u, L.c)), RAbs(RSub(L.u, L.c))))
+    [] model = "sw" -> SwEigen(gam, sw(L), 1) /\ SwEigen(gam, sw(L), -1)
+    [] OTHER -> TRUE
 (* non vacuity witnesses: how many pairs were exact points (reported through TLC's coverage of this definition) *)
 ExactPair == Has /\ model = "eulerhll" /\ HllOK(gam, L, Rr)
 =============================================================================
